@@ -33,8 +33,8 @@ PROPS = {
         "assumptions": ["capacity limits and documented preconditions of the property", "merge restricted to trees (GC1 scoped exemption)"],
     },
     "C02": {
-        "claim": 'Decides the counter-pairing rules GC4 in both directions (every +1 is a put-gain or join-gain, every −1 a first read of a grouped vertex, and conversely), GC3, GC5, GC6b, GC9 on all CFG paths; with DESIGN §5.0 this gives counter == number of unread data of the group after every call, hence exact collection and no underflow. The capacity limits are preconditions and are not checked.',
-        "note": 'Trusted: as C01. Does not decide the capacity limits (16 members, 14 groups).',
+        "claim": 'Decides the counter-pairing rules GC4 in both directions (every +1 is a put-gain or join-gain, every −1 a first read of a grouped vertex, and conversely), GC3, GC5, GC6b, GC9 on all CFG paths; with DESIGN §5.0 this gives counter == number of unread data of the group after every call, hence exact collection and no underflow. LM: the documented limits are available in the code (both group tables are created with a constant of at least 16 slots = 2 reserved + 14 groups, a member list holds at least 16 vertices), so a call within the limits is not stopped by a smaller table; whether a history stays within the limits is a precondition.',
+        "note": 'Trusted: as C01. Staying within the capacity limits (16 members, 14 groups) is a precondition; that the code provides them is decided (LM).',
         "technique": 'MIR pairing / co-occurrence rules on counter and tag events',
         "rules": [("GC3", G.gc3), ("GC4", G.gc4), ("GC5", G.gc5), ("GC6b", functools.partial(G.gc6, parts="b")), ("GC9", G.gc9), ("LM", G.limits)],
         "explanation": "GC exactness: the unread counter of a group changes by exactly the put-gain / join-gain / read-loss "
@@ -54,7 +54,7 @@ PROPS = {
         "assumptions": [],
     },
     "C06": {
-        "claim": "Decides GC6a–d and GC5: a new group only takes a slot tested empty by an unrestricted scan of all slots, a destroyed group's list is cleared on every returning path of the same call, the constructor installs non-empty sentinels at 0 and 1 and zeroed tables, and no other function touches the tables; with I1–I3 a slot is free iff its list is empty, for histories of any length.",
+        "claim": "Decides GC6a–d and GC5: a new group only takes a slot tested empty by an unrestricted scan of all slots, a destroyed group's list is cleared on every returning path of the same call, the constructor installs non-empty sentinels at 0 and 1 and zeroed tables, and no other function touches the tables; with I1–I3 a slot is free iff its list is empty, for histories of any length. GC2: the loop that removes the members of a dying group is not left before the list is exhausted. LM: the tables provide the documented 14 groups of 16 members.",
         "note": "Trusted: as C01; 'fewer than 14 groups alive' is the precondition under which the search succeeds.",
         "technique": 'MIR who-may-call + guard + post-dominance rules on the slot table',
         "rules": [("GC5", G.gc5), ("GC6", functools.partial(G.gc6, parts="abcd")), ("GC2", G.gc2), ("GC4", G.gc4), ("LM", G.limits)],
@@ -65,7 +65,7 @@ PROPS = {
         "assumptions": ["fewer than 14 groups alive is the precondition under which the search succeeds"],
     },
     "C18": {
-        "claim": "Decides the structural clauses XP1–XP4 of to_xml()/to_dot(): per-vertex emission is control-dependent on the slot's tag being non-zero (sibling rule over keys / Debug / to_xml / to_dot), vertices come from the ascending store iteration or a sort by id and edges pass a sort by label, one edge entry per item of the vertex's edge map with that item's label and target and no condition on the edge, and the data entry is guarded by persistence ∉ {Empty} (nothing narrower) and prints that vertex's data. Does not decide well-formedness/escaping of the produced text. RW7 (derived Ord of Label: the sort the exports rely on is the total order of the enum value) and HX6 (Display of Hex, which the DOT export embeds, writes exactly print()) are run as premises.",
+        "claim": "Decides the structural clauses XP1–XP4 of to_xml()/to_dot(): per-vertex emission is control-dependent on the slot's tag being non-zero (sibling rule over keys / Debug / to_xml / to_dot), vertices come from the ascending store iteration or a sort by id and edges pass a sort by label, one edge entry per item of the vertex's edge map with that item's label and target and no condition on the edge, and the data entry is guarded by persistence ∉ {Empty} (nothing narrower) and prints that vertex's data; neither the vertex walk nor the edge walk is left early (no break / success return inside). Does not decide well-formedness/escaping of the produced text. RW7 (derived Ord of Label: the sort the exports rely on is the total order of the enum value) and HX6 (Display of Hex, which the DOT export embeds, writes exactly print()) are run as premises.",
         "note": "Trusted: rustc front end + engine; emap iteration is ascending and skips no Some slot; itertools sorted_by_key is a stable sort. The text-level clause (document parses back) is not decided.",
         "technique": "MIR guard + iterator-chain (taint/sanitiser) + provenance rules",
         "rules": [("XP1", L.xp1), ("XP2", L.xp2), ("XP3", L.xp3), ("XP4", L.xp4), ("RW7", LB.lb7), ("HX6", H.hx6)],
@@ -74,7 +74,7 @@ PROPS = {
         "assumptions": ["labels need no XML escaping (property precondition)"],
     },
     "C20": {
-        "claim": "Decides IN1–IN4: the recursive descent of inspect() is control-dependent on the target not being in the visited set and vertices are marked before descending (termination on cycles); one unconditional line per edge of the visited vertex with its label and target; Debug/Display list a slot only if its tag is non-zero, with every edge and the data iff has-data; v_print selects the data marker by persistence ∉ {Empty} of the printed vertex and lists one label per edge of that vertex.",
+        "claim": "Decides IN1–IN4: the recursive descent of inspect() is control-dependent on the target not being in the visited set and vertices are marked before descending (termination on cycles); one unconditional line per edge of the visited vertex with its label and target; Debug/Display list a slot only if its tag is non-zero, with every edge and the data iff has-data, and no walk is left before its iterator is exhausted; v_print selects the data marker by persistence ∉ {Empty} of the printed vertex and lists one label per edge of that vertex.",
         "note": "Trusted: rustc front end + engine; std HashSet. Exactly-once listing follows from marked-before-descent + unconditional per-edge line (hand argument).",
         "technique": "MIR guarded-recursion + guard/provenance rules",
         "rules": [("IN1", L.in1), ("IN2", L.in2), ("IN3", L.in3), ("IN4", L.in4)],
@@ -92,7 +92,7 @@ PROPS = {
         "assumptions": [],
     },
     "C15": {
-        "claim": "Decides the structural clauses HX1–HX5: each of the eight Index/IndexMut impls guards its inline-array access by exactly the comparison the byte slice's own bound check makes (bounds table), with the other edge panicking; eq/print/to_vec/byte_at/tail/to_i64/to_f64/to_utf8/is_empty/to_bool/Debug/Display never look at the representation, only at bytes()/len()/print(); bytes() is the array cut to exactly the length field and len() the stored length; numeric conversions use the big-endian pair through a whole-bytes [u8; 8] conversion with the error propagated; from_slice picks the inline form iff len ≤ 8, copies exactly slice.len() bytes and records slice.len(). Does not decide from_str(print(h)) == h (value round trip through the hex crate). HX6: Display and Debug of Hex write exactly print().",
+        "claim": "Decides the structural clauses HX1–HX5: each of the eight Index/IndexMut impls guards its inline-array access by exactly the comparison the byte slice's own bound check makes (bounds table), with the other edge panicking; eq/print/to_vec/byte_at/tail/to_i64/to_f64/to_utf8/is_empty/to_bool/Debug/Display never look at the representation, only at bytes()/len()/print(); bytes() is the array cut to exactly the length field and len() the stored length; numeric conversions use the big-endian pair through a whole-bytes [u8; 8] conversion with the error propagated; from_slice picks the inline form only if len ≤ 8 (a lower threshold is a pure representation choice), copies exactly slice.len() bytes and records slice.len(). Does not decide from_str(print(h)) == h (value round trip through the hex crate). HX6: Display and Debug of Hex write exactly print().",
         "note": "Trusted: rustc front end + engine; std slice/array indexing semantics (the bounds table is derived from them); hex crate. The text round trip is not decided.",
         "technique": "MIR sibling-agreement (bounds table) + representation-encapsulation + provenance rules",
         "rules": [("HX1", H.hx1), ("HX2", H.hx2), ("HX3", H.hx3), ("HX4", H.hx4), ("HX5", H.hx5), ("HX6", H.hx6)],
@@ -146,7 +146,7 @@ PROPS = {
         "assumptions": [],
     },
     "C07": {
-        "claim": "Decides the sodg-side clause, in the conservative direction: no user-written unsafe block/fn/impl/extern block, raw pointer or transmute anywhere in the crate (HIR + MIR); every resolved callee in emap/micromap/microstack is outside the audited deny-list (uninitialised constructor, bitwise-reading iterators, *_unchecked, any unsafe fn), so each element access goes through an entry point that asserts its bound in a debug-assertion build; Stack::from_vec only on a literal of at most 16 elements; the locked checksums of the containers equal the audited ones; the element types for which the containers' bitwise reads are sound are unchanged; a graph built from the ids of another one (slice) gets that graph's vertex capacity. It can reject code that is in fact safe; it cannot accept code that leaves the checked API. Does not decide the containers' internals, release builds, or 'calls within the limits complete' (C02's no-panic clause). GC6c: the two group tables are created with the same size, so a group id valid for one is valid for the other.",
+        "claim": "Decides the sodg-side clause, in the conservative direction: no user-written unsafe block/fn/impl/extern block, raw pointer or transmute anywhere in the crate (HIR + MIR); every resolved callee in emap/micromap/microstack is outside the audited deny-list (uninitialised constructor, bitwise-reading iterators, *_unchecked, any unsafe fn), so each element access goes through an entry point that asserts its bound in a debug-assertion build; Stack::from_vec only on a literal of at most 16 elements; the locked checksums of the containers equal the audited ones; the element types for which the containers' bitwise reads are sound are unchanged; a graph built from the ids of another one (slice) gets that graph's vertex capacity. It can reject code that is in fact safe; it cannot accept code that leaves the checked API. Does not decide the containers' internals, release builds, or 'calls within the limits complete' (C02's no-panic clause). GC6c: the two group tables are created with the same size, so a group id valid for one is valid for the other. LM (exact): a member list holds exactly 16 vertices, so the 17th member of a group stops in microstack's push assertion, and the group tables have at least the documented 16 slots.",
         "note": "Trusted: the audit of emap 0.0.13 / micromap 0.0.19 / microstack 0.0.7 by reading (DESIGN §3): bounds asserted under debug_assertions, push asserts in all builds. Claimed for debug-assertion builds only, as the property says.",
         "technique": "HIR/MIR unsafe scan + who-may-call deny-list over resolved callees + lockfile/type facts",
         "rules": [("MS1", MS.ms1), ("MS2", MS.ms2), ("MS3", MS.ms3), ("MS4", MS.ms4), ("MS5", MS.ms5), ("MS6", MS.ms6), ("GC6c", functools.partial(G.gc6, parts="c")), ("LM", functools.partial(G.limits, exact=True)), ("MS2x", MS.ms_cross)],
@@ -187,7 +187,7 @@ PROPS = {
         "assumptions": [],
     },
     "C13": {
-        "claim": "Decides SL1–SL6: every insertion into the work set inside the closure loop is control-dependent on the visited set not containing that vertex and the vertex is marked on enqueue or dequeue (each vertex processed at most once: termination on cycles; roles found structurally); a vertex is enqueued only under p(from,to,label) true with exactly the scanned edge's components, every edge of a visited vertex being scanned; the rebuild calls add/bind only, bind(v1,v2,k) with exactly (outer key, inner target, inner label) of the edge iterated, control-dependent on nothing but membership of both endpoints in the visited set; nothing is written through &self; the slice has the source's capacity; slice() passes the constantly-true predicate. Does not decide set equality with graph reachability as such. RW1, GC5 and GC7 (contracts of bind() and add(), with which the slice is rebuilt) are run as premises.",
+        "claim": "Decides SL1–SL6: every insertion into the work set inside the closure loop is control-dependent on the visited set not containing that vertex and the vertex is marked on enqueue or dequeue (each vertex processed at most once: termination on cycles; roles found structurally); a vertex is enqueued only under p(from,to,label) true with exactly the scanned edge's components, every edge of a visited vertex being scanned and the scan loop never left by break or an early success return; the rebuild calls add/bind only, bind(v1,v2,k) with exactly (outer key, inner target, inner label) of the edge iterated, control-dependent on nothing but membership of both endpoints in the visited set; nothing is written through &self; the slice has the source's capacity; slice() passes the constantly-true predicate. Does not decide set equality with graph reachability as such. RW1, GC5 and GC7 (contracts of bind() and add(), with which the slice is rebuilt) are run as premises.",
         "note": "Trusted: rustc front end + engine; std HashSet. Soundness of each copy, completeness of the scan and termination are decided; equality of the kept set with the reachable set follows by the standard work-list argument (hand).",
         "technique": "MIR visited-set discipline (guard + co-occurrence) + provenance of rebuild arguments + purity",
         "rules": [("SL1/SL2", SL.sl12), ("SL3-6", SL.sl3456),
